@@ -211,7 +211,7 @@ pub fn probe_instants(z: &Zone, rng: &mut Rng, per_transition: usize, max_transi
         let before = if i == 0 { z.initial } else { z.trans[i - 1].1 };
         let ch = (after - before).abs() as i128 * SEC;
         let t = t as i128 * SEC;
-        let deltas = [0, 1, -1, SEC, -SEC, ch / 2, -ch / 2, ch, -ch, ch + SEC, -ch - SEC, 3 * 3600 * SEC, -3 * 3600 * SEC, 3 * 3600 * SEC + SEC, 3 * 3600 * SEC - SEC, -3 * 3600 * SEC - SEC, NS_PER_DAY, -NS_PER_DAY, ch - 1, 1 - ch];
+        let deltas = [0, 1, -1, SEC, -SEC, SEC / 2, -SEC / 2, -SEC + 1, ch - SEC / 2, -ch - SEC / 2, -ch + SEC / 2, ch / 2, -ch / 2, ch, -ch, ch + SEC, -ch - SEC, 3 * 3600 * SEC, -3 * 3600 * SEC, 3 * 3600 * SEC + SEC, 3 * 3600 * SEC - SEC, -3 * 3600 * SEC - SEC, NS_PER_DAY, -NS_PER_DAY, ch - 1, 1 - ch];
         for _ in 0..per_transition {
             out.push(t + *rng.pick(&deltas));
         }
@@ -234,8 +234,10 @@ pub fn run(rep: &mut Report) {
     let iso = Calendar::default();
     let zones = load_zones(rep, &mut rng, 1_500, 40_000, 60);
     rep.add("zones/total", zones.len() as u64);
-    let prov = TableProvider::new(zones.clone());
+    let prov = SwitchProvider::new(zones.clone());
     let per_zone_budget = if rep.cfg.thorough() { 2_500 } else { 400 };
+    // the exported tables end in 2120; the library's own provider goes on applying the zone's rule after that
+    const TABLE_HORIZON: i128 = 4_700_000_000 * SEC;
     let mut evals = 0u64;
     for (zi, z) in zones.iter().enumerate() {
         if !rep.cfg.mine(zi as u64) {
@@ -249,8 +251,17 @@ pub fn run(rep: &mut Report) {
                 continue;
             }
         };
+        // real zones twice: through the table provider (the core's use of any provider) and through the library's
+        // own provider reading the same TZif files (the conversion a user of named zones gets)
+        let passes = if zone_class(z) == "real" { 2 } else { 1 };
+        for pass in 0..passes {
+        prov.use_fs.set(pass == 1);
         let nrand = per_zone_budget / 4;
-        let pts = probe_instants(z, &mut rng, 3, per_zone_budget / 4, nrand);
+        let mut pts = probe_instants(z, &mut rng, 3, per_zone_budget / 4, nrand);
+        if pass == 1 {
+            pts.retain(|t| t.abs() < TABLE_HORIZON);
+            rep.add("tzdb-provider/instants", pts.len() as u64);
+        }
         for t in pts {
             let sel_dis = rng.below(4) as usize;
             let sel_opt = rng.below(4) as usize;
@@ -260,7 +271,7 @@ pub fn run(rep: &mut Report) {
                 continue;
             }
             evals += 1;
-            let zc = zone_class(z);
+            let zc = if pass == 1 { "real,tzdb-provider" } else { zone_class(z) };
             // ---------------- A. instant -> wall clock
             let off_s = z.ref_offset_at(t.div_euclid(SEC) as i64);
             let local = t + off_s as i128 * SEC;
@@ -418,6 +429,8 @@ pub fn run(rep: &mut Report) {
                 rep.sample(&format!("e{evals}"), || json!({"zone": z.name, "instant": t.to_string(), "wall": fmt_local(wall), "candidates": cands.len(), "text": text}));
             }
         }
+        }
+        prov.use_fs.set(false);
     }
     // ---------------- fixed offsets: every whole hour and a few odd ones
     if rep.cfg.shard == 0 {
